@@ -34,6 +34,9 @@ def expressible(d, f, pd, pm, today):
     return D(y, m, day, hour, mi, s, us), period
 
 
+CLOCKS = [D(2026, 4, 30, 9, 0), D(2027, 2, 28, 23, 30), D(2028, 2, 29, 0, 15), D(2026, 10, 31, 12, 0), D(2026, 6, 15, 6, 45)]
+
+
 def run(ctx):
     tier = ctx["tier"]
     R = rng("c14")
@@ -76,6 +79,14 @@ def run(ctx):
                     exp, period = expressible(d, f, pd, pm, today)
                     cases.append({"s": d.strftime(f), "langs": ["en"], "settings": {"RELATIVE_BASE": base, "TIMEZONE": "UTC", "PREFER_DAY_OF_MONTH": pd, "PREFER_MONTH_OF_YEAR": pm},
                                   "fmts": [f], "today": today, "expect": expect_str(exp, period=period), "stratum": "partial-all-prefs"})
+                    # the custom-format parser takes 'current' day / month and a missing year from the system clock: the same law under
+                    # controlled clocks (a 30-day month, the end of February in a common and in a leap year, the 31st)
+                    for ck in (CLOCKS if tier != "quick" else [CLOCKS[(len(cases) // 7) % len(CLOCKS)]]):
+                        if not ("%Y" in f or "%y" in f) and (d.month, d.day) == (2, 29):
+                            continue
+                        exp2, period2 = expressible(d, f, pd, pm, ck)
+                        cases.append({"s": d.strftime(f), "langs": ["en"], "settings": {"RELATIVE_BASE": base, "TIMEZONE": "UTC", "PREFER_DAY_OF_MONTH": pd, "PREFER_MONTH_OF_YEAR": pm},
+                                      "fmts": [f], "today": ck, "clock": ck, "expect": expect_str(exp2, period=period2), "stratum": "partial-all-prefs/clock"})
     # the given format wins over a heuristic reading: an ambiguous numeric string read per the format, not per DATE_ORDER
     for _ in range(20 if tier == "quick" else 300):
         dd, mm, yy = R.randint(1, 12), R.randint(1, 12), R.randint(1970, 2060)
